@@ -10,12 +10,12 @@ var paths = []string{"/a", "/a/b", "/a/b/c", "/d", "/a/d"}
 
 func Main() {
 	mc.Main("C18", "model_checking",
-		"explicit-state search (breadth first, replay from the empty store) over all histories of create-file / create-dir / update / kind-flipping update / delete (recursive x deleteData) / rename on the paths {/a,/a/b,/a/b/c,/d,/a/d}, executed on the real FilerServer gRPC methods over leveldb2; distinct = (operation, flags, kind of source, kind of target, outcome, store changed)",
+		"explicit-state search (breadth first, replay from the empty store) over all histories of create-file / create-dir / update / kind-flipping update / delete (recursive x deleteData, plus IgnoreRecursiveError on a non-recursive and on a recursive delete) / rename on the paths {/a,/a/b,/a/b/c,/d,/a/d}, executed on the real FilerServer gRPC methods over leveldb2; distinct = (operation, flags, kind of source, kind of target, outcome, store changed)",
 		func(r *mc.Run) {
 			fsys.Run(r, &fsys.Config{
 				ID: "C18",
 				Alpha: fsys.Alphabet{Paths: paths, Ops: map[string]bool{
-					"mkfile": true, "mkdir": true, "updrepl": true, "flip": true, "del": true, "mv": true}},
+					"mkfile": true, "mkdir": true, "updrepl": true, "flip": true, "del": true, "delign": true, "mv": true}},
 				Judge:       func(s *fsys.Step, acc *fsys.Acc) *fsys.Verdict { return fsys.JudgeC18(s) },
 				DepthQ:      4,
 				DepthT:      6,
